@@ -4,6 +4,7 @@ package main
 
 import (
 	"os"
+	"reflect"
 	"fmt"
 	"strings"
 	"go/ast"
@@ -975,6 +976,9 @@ func (e *Engine) execFor(st *State, n *ast.ForStmt, cx *Ctx) *State {
 	if lc != nil && lc.unroll > 0 {
 		return e.execUnrolled(st, n, cx, lc.unroll)
 	}
+	if lc != nil && lc.skip {
+		return e.skipLoop(st, n, n.Body, n.Post, n.Cond)
+	}
 	e.checkInvariants(st, lc, "inv-init", n.Pos())
 	pushedLF := e.pushLoopFrame(st, lc)
 	defer e.popLoopFrame(pushedLF)
@@ -1025,6 +1029,20 @@ func (e *Engine) execFor(st *State, n *ast.ForStmt, cx *Ctx) *State {
 	cx.returns = append(cx.returns, inner.returns...)
 	cx.defers = inner.defers
 	return e.merge(append([]*State{exit}, inner.breaks...))
+}
+
+// skipLoop: `loop#n skip` -- the loop is not executed symbolically; whatever its body may assign is arbitrary afterwards.
+func (e *Engine) skipLoop(st *State, n ast.Node, body ast.Node, extra ...ast.Node) *State {
+	p := e.prog.fset.Position(n.Pos())
+	e.noteAssumption(fmt.Sprintf("loop at %s:%d skipped (skip clause of a lemma-level contract): its body is not verified, its effects are arbitrary", relRepo(p.Filename), p.Line))
+	var ex []ast.Node
+	for _, x := range extra {
+		if x != nil && !reflect.ValueOf(x).IsNil() {
+			ex = append(ex, x)
+		}
+	}
+	e.havocLoopTargets(st, body, ex...)
+	return st
 }
 
 func (e *Engine) noteTermination(n ast.Node) {
@@ -1084,6 +1102,17 @@ func (e *Engine) execRange(st *State, n *ast.RangeStmt, cx *Ctx) *State {
 	}
 	keyObj, valObj = getObj(n.Key), getObj(n.Value)
 	lc := e.loopContract(cx, n)
+	if lc != nil && lc.skip {
+		e.eval(st, n.X)
+		for _, o := range []*types.Var{keyObj, valObj} {
+			if o != nil {
+				if _, ok := st.vars[o]; !ok {
+					st.vars[o] = e.zero(st, o.Type())
+				}
+			}
+		}
+		return e.skipLoop(st, n, n.Body, n.Key, n.Value)
+	}
 	switch u := under(xt).(type) {
 	case *types.Slice, *types.Array, *types.Pointer, *types.Basic:
 		var blk, off, ln T
